@@ -15,12 +15,16 @@ ASSUMPTIONS = [
 MANIFEST = {
     'text': 'Partial. Full (translator-based) for the static clause: no_unresolved_global is decided by the Lean kernel over the symbol '
             'table regenerated from the working tree on every run, so no function of the package can reference an undefined global '
-            'name. The clauses about the reader (only parse errors or declared errors escape, ignored reactions do not abort the read, a '
-            'failed read leaves previously held objects valid singletons) are decided on the real reader over every single-fault '
-            'corruption kind at random positions of generated valid documents, multi-fault documents and random text; when the symbol '
-            'theorem breaks, the same corpora are driven to the offending function to obtain a concrete NameError replay.',
-    'note': 'Python name resolution is modelled by symtable; the reader outcome clauses are exploration on the real code, not theorems.',
-    'technique': 'Lean 4 decide over a symbol table regenerated from source (translator); fault-injection exploration of the real reader',
+            'name. Dynamic clauses: the Lean reader model (Model/Reader.lean) returns for every document either the dictionary, a '
+            'declared error kind or an explicit `fault`; its outcome KIND is compared with the real reader on every single-fault '
+            'corruption (15 kinds) of generated valid documents and on multi-fault documents, and the theorems about it that are present '
+            '(reader_never_faults etc., see evidence) exclude faults for all grammar-shaped documents. On the real code: only parse '
+            'errors or declared errors escape, ignored reactions do not abort the read, a failed read leaves previously held objects '
+            'valid singletons; faults are shrunk to minimal documents. When the symbol theorem breaks, the corpora are driven to the '
+            'offending function to obtain a concrete NameError replay.',
+    'note': 'Python name resolution is modelled by symtable; exception kinds outside the modelled partial operations are covered by '
+            'correspondence and exploration only.',
+    'technique': 'Lean 4 decide over a symbol table regenerated from source + reader model with explicit fault outcomes; fault-injection correspondence',
 }
 
 
